@@ -1,8 +1,9 @@
 (* C11 - Tab completes to the common continuation of all matching command names. Statements only.
    complete_spec (Spec/CompletionSpec.v) is the declarative completion over characters; the model is Editor::autocompletion driven by
    the derived scan over all visible names in declaration order (any order, any grouping) followed by the built-in `help`. *)
+From Coq Require Import Permutation.
 From EC Require Import Base Generated.Codes Model.Utils Model.Input Model.Editor Model.Sink Model.Cli Spec.Utf8Spec Spec.ArgSpec Spec.IdealEditor Spec.CompletionSpec Spec.Session
-  Proofs.ArgsProofs Proofs.EditorProofs Proofs.CompletionProofs Proofs.SinkOk Proofs.SafetyProofs Proofs.SessionProofs.
+  Proofs.ArgsProofs Proofs.EditorProofs Proofs.CompletionProofs Proofs.OrderProofs Proofs.SinkOk Proofs.SafetyProofs Proofs.SessionProofs.
 
 (* the fold of merge_autocompletion over ANY list of candidates (any order, any number, empty ones, ones longer than the room) yields
    the longest common prefix cut to the whole characters that fit; "partial" iff more than one candidate or truncated *)
@@ -55,6 +56,29 @@ Proof.
   - cbn [fst snd] in *. rewrite app_nil_r in Hc. split; [exact Hc|]. destruct R' as (_ & r2 & r3 & _). rewrite r2, r3, q2, q3. reflexivity.
 Qed.
 Print Assumptions C11_cli.
+
+(* "in whatever order they are declared": the completion is a function of the SET of names - any permutation of the declaration order,
+   across groups or within one, gives the same line and cursor *)
+Theorem C11_order_independent : forall names names' cap text cursor, Permutation names names' ->
+  complete_spec names cap text cursor = complete_spec names' cap text cursor.
+Proof. exact complete_spec_perm. Qed.
+Print Assumptions C11_order_independent.
+
+(* ... for the modelled code itself: two command sets exposing the same names in different orders complete every line alike *)
+Theorem C11_declaration_order : forall cap e i cs cs', Rep cap e i -> Forall valid_tok (cs_names cs) ->
+  Permutation (cs_names cs) (cs_names cs') ->
+  exists e1 e2, ed_autocompletion e (complete_with cs) = Some e1 /\ ed_autocompletion e (complete_with cs') = Some e2 /\
+    text e1 = text e2 /\ cursor e1 = cursor e2.
+Proof.
+  intros cap e i cs cs' R Hv P.
+  assert (Hv' : Forall valid_tok (cs_names cs')) by (eapply Permutation_Forall; eauto).
+  destruct (autocompletion_spec cap e i cs R Hv) as (e1 & i1 & E1 & _ & S1).
+  destruct (autocompletion_spec cap e i cs' R Hv') as (e2 & i2 & E2 & _ & S2).
+  exists e1, e2. split; [exact E1|]. split; [exact E2|].
+  rewrite (complete_spec_perm _ (cs_names cs' ++ [HELP_CANDIDATE])) in S1 by (apply Permutation_app_tail; exact P).
+  rewrite <- S2 in S1. injection S1 as -> ->. split; reflexivity.
+Qed.
+Print Assumptions C11_declaration_order.
 
 Example C11_nonvacuous :
   (* names in an order where the ones sharing a prefix are not adjacent; tight buffer; prefix-of-another *)
